@@ -195,7 +195,11 @@ func cmdCheck(args []string) int {
 	}
 	// discharge everything with one worker pool
 	tSolve := time.Now()
-	dischargeAll(ctxs, solveOpts{secs: secs, workDir: work, workers: 16, all: all})
+	budget := 25 * time.Minute
+	if *tier == "thorough" {
+		budget = 3 * time.Hour
+	}
+	dischargeAll(ctxs, solveOpts{secs: secs, workDir: work, workers: 16, all: all, deadline: time.Now().Add(budget)})
 	solveWall := time.Since(tSolve)
 
 	// group queries into obligations
